@@ -282,8 +282,11 @@ func SelfCheck(dir string) (report map[string]int, failures []string, err error)
 					fail(ln, "block decode: %v", err)
 					continue
 				}
-				validate, eng := true, "none"
+				validate, eng, deadline := true, "none", false
 				for _, t := range fs[8:] {
+					if t == "ctxerr=deadline" {
+						deadline = true
+					}
 					if strings.HasPrefix(t, "engine=") {
 						eng = t[len("engine="):]
 					}
@@ -291,7 +294,7 @@ func SelfCheck(dir string) (report map[string]int, failures []string, err error)
 						validate = false
 					}
 				}
-				res = RunTransition(sp, pre, nil, sb, bref.fork, validate, eng, -1, k)
+				res = RunTransitionCtx(sp, pre, nil, sb, bref.fork, validate, eng, -1, k, deadline)
 				base = RunTransition(sp, pre, nil, sb, bref.fork, validate, eng, -1, -1)
 			}
 			if base.Polls != total {
